@@ -16,6 +16,7 @@ FUNCTIONS = [
     "cnvlib.coverage.region_depth_count (incl. its filter_read)/_rdc_chunk/_rdc/interval_coverages_count (serial branch)",
     "cnvlib.coverage.interval_coverages_pileup (post-processing)/bedcov/_bedcov/detect_bedcov_columns",
     "cnvlib.parallel.to_chunks/rm/SerialPool",
+    "cnvlib.coverage.interval_coverages_count (pool branch, with an in-process stand-in pool)/_rdc, cnvlib.samutil.ensure_bam_index/is_newer_than (stand-in file system with symbolic modification times)",
 ]
 BOUNDS = {
     "reads": "<= 2 reads of <= 3 aligned positions each, symbolic start, every flag (duplicate, secondary, unmapped, QC-fail) a symbolic boolean, symbolic MAPQ and min_mapq",
@@ -32,6 +33,8 @@ STUBS = [
     "bamfile.fetch returns the harness's read objects (a superset of the reads overlapping the region is allowed by the code's own position test)",
     "pysam.bedcov returns text lines: the input BED line plus the base count (its documented format)",
     "pysam.AlignmentFile -> the stub BAM; open() of the regions file -> in-memory lines",
+    "concurrent.futures.ProcessPoolExecutor -> in-process stand-in (ordered map, arguments unchanged) in the workers harness",
+    "os.path.isfile / os.stat / pysam.index -> dictionary file system with symbolic modification times (bam_index harness)",
 ]
 ASSUMPTIONS = ["log2 is an uninterpreted function with the inverse/monotonicity lemmas"]
 
@@ -55,6 +58,15 @@ class Bam:
 
     def fetch(self, reference=None, start=None, end=None):
         return list(self.reads.get(reference, []))
+
+    def __enter__(self):  # pysam's AlignmentFile is a context manager
+        return self
+
+    def __exit__(self, *a):
+        return False
+
+    def close(self):
+        pass
 
 
 def counted(r, min_mapq):
@@ -130,6 +142,121 @@ def h_count_rows(ctx, order):
         if a[0] == b[0]:
             ctx.claim(Or(a[1] < b[1], And(a[1] == b[1], a[2] <= b[2])), "rows of a chromosome are in coordinate order")
     ctx.cover("reached")
+
+
+def h_workers(ctx):
+    """interval_coverages_count with 1 worker and with N: the same rows and counts.  The process
+    pool is replaced by an in-process stand-in that honours its contract (ordered map, arguments
+    handed over unchanged): what is decided is what each worker is asked to do -- the same bins,
+    the same mapping-quality cut-off."""
+    mq = ctx.int("min_mapq", 0, 60)
+    reads = {"chr1": [Read(ctx, 0, 2)], "chr2": [Read(ctx, 1, 1)]}
+    bins = [("chr1", ctx.int("as", 0, M), ctx.int("ae", 0, M), "A"), ("chr2", ctx.int("cs", 0, M), ctx.int("ce", 0, M), "C")]
+    for _c, s_, e_, _n in bins:
+        ctx.assume(s_ < e_)
+    text = "".join(f"{c}\t{s_}\t{e_}\t{n}\n" for c, s_, e_, n in bins)
+    bam = Bam(reads)
+
+    class _Pysam:
+        @staticmethod
+        def AlignmentFile(*a, **k):
+            return bam
+
+    class _Pool:
+        def __init__(self, n):
+            self.n = n
+
+        def __enter__(self):
+            return self
+
+        def __exit__(self, *a):
+            return False
+
+        def map(self, fn, it):
+            return [fn(x) for x in it]
+
+    class _Futures:
+        ProcessPoolExecutor = _Pool
+
+    orig_p, orig_f = coverage.pysam, coverage.futures
+    coverage.pysam, coverage.futures = _Pysam, _Futures
+    try:
+        one = list(coverage.interval_coverages_count(io.StringIO(text), "sample.bam", mq, 1))
+        many = list(coverage.interval_coverages_count(io.StringIO(text), "sample.bam", mq, 3))
+    except Exception as exc:
+        ctx.claim(False, f"interval_coverages_count raised {type(exc).__name__}", info=str(exc)[:200])
+        return
+    finally:
+        coverage.pysam, coverage.futures = orig_p, orig_f
+    ctx.observe("counts", [c for c, _r in one])
+    ctx.claim(len(one) == len(many) == 2, "one row per bin for any number of workers")
+    if len(one) != len(many):
+        return
+    for (c1, r1), (c2, r2) in zip(one, many):
+        ctx.claim(c1 == c2, "the read count of a bin is the same for 1 and N workers (same filters, same cut-off)")
+        ctx.claim(r1[0] == r2[0] and r1[3] == r2[3] and And(r1[1] == r2[1], r1[2] == r2[2], r1[5] == r2[5]), "the row of a bin is the same for 1 and N workers")
+    ctx.cover("a read below the cut-off", Or(*[r.mapq < mq for rs in reads.values() for r in rs]))
+    ctx.cover("reached")
+
+
+def h_bam_index(ctx, ext):
+    """ensure_bam_index: the index the reads are looked up through is never older than the
+    alignment file -- an existing index is reused only if it is at least as new, otherwise it is
+    rebuilt (file system and pysam.index are stand-ins with symbolic modification times)."""
+    from cnvlib import samutil
+
+    bam = "dir/S." + ext
+    idx_ext = "bai" if ext == "bam" else "crai"
+    t_bam = ctx.int("t_bam", 0, 1000)
+    files = {bam: t_bam}
+    long_name, short_name = bam + "." + idx_ext, bam[:-1] + "i"
+    if ctx.choice("has_long", [0, 1]):
+        files[long_name] = ctx.int("t_long", 0, 1000)
+    if ctx.choice("has_short", [0, 1]):
+        files[short_name] = ctx.int("t_short", 0, 1000)
+    before = dict(files)
+    built = []
+
+    class _St:
+        def __init__(self, t):
+            self.st_mtime = t
+
+    class _Path:
+        @staticmethod
+        def isfile(p):
+            return p in files
+
+    class _OS:
+        path = _Path
+
+        @staticmethod
+        def stat(p):
+            return _St(files[p])
+
+    class _Pysam:
+        @staticmethod
+        def index(fname, *a):
+            built.append(fname)
+            files[fname + "." + idx_ext] = 2000  # now
+
+    orig_os, orig_py = samutil.os, samutil.pysam
+    samutil.os, samutil.pysam = _OS, _Pysam
+    try:
+        got = samutil.ensure_bam_index(bam)
+    except Exception as exc:
+        ctx.claim(False, f"ensure_bam_index raised {type(exc).__name__}", info=str(exc)[:200])
+        return
+    finally:
+        samutil.os, samutil.pysam = orig_os, orig_py
+    ctx.observe("index", got)
+    ctx.observe("rebuilt", len(built))
+    ctx.claim(got in files and bool(files[got] >= t_bam), "the index that is used exists and is not older than the alignment file")
+    first = long_name if long_name in before else short_name
+    fresh = first in before and bool(before[first] >= t_bam)
+    ctx.claim((len(built) == 0) == fresh, "the index is rebuilt exactly when there is none or the existing one is older than the alignment file")
+    ctx.cover("stale index", first in before and not fresh)
+    ctx.cover("fresh index", fresh)
+    ctx.cover("no index", first not in before)
 
 
 def h_pileup(ctx, ncols):
@@ -229,5 +356,7 @@ HARNESSES = [
     Harness("depth", h_depth, [{"lengths": [1]}, {"lengths": [3]}, {"lengths": [2, 2]}, {"lengths": [3, 3], "tier": "thorough"}], covers=["positive depth", "zero-width bin", "uncovered bin", "read filtered", "read straddles the bin edge"], wall_s=300, keep_uf=True),
     Harness("count_rows", h_count_rows, [{"order": list(o)} for o in ("abc", "cab", "bca", "ba")], covers=["reached"], wall_s=240, nonce_fork=False),
     Harness("pileup", h_pileup, [{"ncols": 3}, {"ncols": 4}, {"ncols": 6}], covers=["reached", "zero-width bin", "uncovered bin"], wall_s=240, keep_uf=True, nonce_fork=False),
+    Harness("workers", h_workers, [{}], covers=["reached", "a read below the cut-off"], wall_s=240, keep_uf=True, nonce_fork=False),
+    Harness("bam_index", h_bam_index, [{"ext": "bam"}, {"ext": "cram"}], covers=["stale index", "fresh index", "no index"], wall_s=120),
     Harness("chunks", h_chunks, [{"lines": L5}, {"lines": L5[:3]}, {"lines": ["#only"]}, {"lines": L5 + ["chrX\t1\t2\tE"], "tier": "thorough"}], covers=["several chunks", "exact multiple"], wall_s=120),
 ]
